@@ -450,6 +450,7 @@ def check_singles(ctx, T, n, tmp):
 # ------------------------------------------------------------------ gather / reunite
 def gen_world(rng, wid):
     """In-flight Batch jobs + ground truth: batch job id -> eval hash it was created for."""
+    from redun.executors.aws_batch import get_batch_job_name
     jobs, truth, evalfiles = [], {}, {}
     pool = [gen_hex(rng, 40) for _ in range(6)]
     n = rng.choice([0, 1, 2, 3, 4, 6])
@@ -459,7 +460,7 @@ def gen_world(rng, wid):
         if kind < 0.4:
             h = rng.choice(pool)
             jid = "w%d-single-%d" % (wid, k)
-            jobs.append({"jobId": jid, "jobName": "%s-%s" % (prefix, h), "children": []})
+            jobs.append({"jobId": jid, "jobName": get_batch_job_name(prefix, h), "children": []})
             truth[jid] = h
         elif kind < 0.8:
             uid = gen_hex(rng, 32)
@@ -472,7 +473,7 @@ def gen_world(rng, wid):
                 idxs.append(m + rng.randrange(0, 2))                    # inconsistent listing: index beyond the file
             has_file = rng.random() < 0.85
             children = [{"jobId": "%s:%d" % (jid, i), "arrayProperties": {"index": i}} for i in idxs]
-            jobs.append({"jobId": jid, "jobName": "%s-%s-array" % (prefix, uid), "children": children})
+            jobs.append({"jobId": jid, "jobName": get_batch_job_name(prefix, uid, array=True), "children": children})
             if has_file:
                 evalfiles[uid] = hashes
                 for i in idxs:
@@ -534,7 +535,8 @@ def check_gather(ctx, T, n_worlds, tmp):
         ex._scheduler = mock.Mock()
         ex.arrayer.add_job = mock.Mock()
         ex._start = mock.Mock()
-        for h in rng.sample(pool, 3) + [gen_hex(rng, 40)]:
+        bound = [k for k in sorted(impl) if len(k) == 40]
+        for h in rng.sample(pool, 2) + rng.sample(bound, min(2, len(bound))) + [gen_hex(rng, 40)]:
             scope = rng.choice(["BACKEND", "BACKEND", "BACKEND", "CSE", "NONE"])
             alive = rng.random() < 0.8
             job = make_job(T, "add", ((1,), {}), h, options=None if scope == "BACKEND" else {"cache_scope": scope})
